@@ -26,10 +26,10 @@ pub mod verif_sched {
         id.index()
     }
 
-    pub fn active() -> bool {
+    pub fn verif_active() -> bool {
         SCRIPT.with(|s| s.borrow().active)
     }
-    pub fn cut() -> bool {
+    pub fn verif_cut() -> bool {
         SCRIPT.with(|s| s.borrow().active && s.borrow().cut)
     }
     pub fn on_start(id: BuildId) {
@@ -278,5 +278,108 @@ mod verif_kani {
             assert!(c.get(states[a]) == raw[a]);
         }
         kani::cover!(a != b);
+    }
+}
+
+#[cfg(n2_verif)]
+pub mod verif_dirty {
+    use super::*;
+    use std::time::{Duration, SystemTime};
+
+    struct NoProgress;
+    impl Progress for NoProgress {
+        fn update(&self, _counts: &StateCounts) {}
+        fn task_started(&self, _id: BuildId, _build: &Build) {}
+        fn task_output(&self, _id: BuildId, _line: Vec<u8>) {}
+        fn task_finished(&self, _id: BuildId, _build: &Build, _result: &task::TaskResult) {}
+        fn log(&self, _msg: &str) {}
+    }
+
+    fn set_file(name: &str, present: bool, secs: u64, nanos: u32) {
+        if !present {
+            let _ = std::fs::remove_file(name);
+            return;
+        }
+        let f = std::fs::OpenOptions::new().create(true).write(true).open(name).unwrap();
+        f.set_modified(SystemTime::UNIX_EPOCH + Duration::new(secs, nanos)).unwrap();
+    }
+
+    fn mk(order: &[&str], explicit: &str, cmd: u8, rsp: Option<u8>, dset: &[&str]) -> Graph {
+        let mut g = Graph::default();
+        for n in order {
+            g.files.id_from_canonical(n.to_string());
+        }
+        let mut id = |n: &str| g.files.id_from_canonical(n.to_string());
+        let ins = vec![id(explicit), id("imp"), id("oo"), id("val")];
+        let outs = vec![id("out"), id("out2")];
+        let disc: Vec<FileId> = dset.iter().map(|d| id(d)).collect();
+        for n in ["in", "imp", "oo", "val", "disc", "out", "out2", "in2"] {
+            id(n);
+        }
+        let mut b = Build::new(
+            FileLoc { filename: std::rc::Rc::new(std::path::PathBuf::from("build.ninja")), line: 1 },
+            BuildIns { ids: ins, explicit: 1, implicit: 1, order_only: 1 },
+            BuildOuts { ids: outs, explicit: 2 },
+        );
+        b.cmdline = Some(String::from_utf8_lossy(&[b'c', b'c', b' ', cmd]).into_owned());
+        if let Some(r) = rsp {
+            b.rspfile = Some(RspFile { path: std::path::PathBuf::from("r.rsp"), content: String::from_utf8_lossy(&[b'@', r]).into_owned() });
+        }
+        b.set_discovered_ins(disc);
+        g.add_build(b).unwrap();
+        g
+    }
+
+    /// dirty1 <have_record> <dset|-> <renamed> <cmd_rec> <cmd_cur> <rsp_rec|-> <rsp_cur|-> name=rs.rn/[PM]cs.cn ...
+    pub fn dirty1(args: &[String]) -> String {
+        let dir = std::env::temp_dir().join(format!("n2verif-dirty-{}", std::process::id()));
+        let _ = std::fs::remove_dir_all(&dir);
+        std::fs::create_dir_all(&dir).unwrap();
+        let old = std::env::current_dir().unwrap();
+        std::env::set_current_dir(&dir).unwrap();
+        let have_record = args[0] == "1";
+        let dset: Vec<&str> = if args[1] == "-" { vec![] } else { args[1].split(',').collect() };
+        let renamed = args[2] == "1";
+        let byte = |s: &str| -> u8 { s.parse::<u64>().unwrap() as u8 };
+        let opt = |s: &str| -> Option<u8> { if s == "-" { None } else { Some(byte(s)) } };
+        let mut specs = Vec::new();
+        for a in &args[7..] {
+            let (name, rest) = a.split_once('=').unwrap();
+            let (r, c) = rest.split_once('/').unwrap();
+            let (rs, rn) = r.split_once('.').unwrap();
+            let present = c.starts_with('P');
+            let (cs, cn) = c[1..].split_once('.').unwrap();
+            specs.push((name.to_string(), rs.parse::<u64>().unwrap(), rn.parse::<u32>().unwrap(), present, cs.parse::<u64>().unwrap(), cn.parse::<u32>().unwrap()));
+        }
+        let mut hashes = Hashes::default();
+        if have_record {
+            for s in &specs {
+                set_file(&s.0, true, s.1, s.2);
+            }
+            let g1 = mk(&["out2", "disc", "in"], "in", byte(&args[3]), opt(&args[5]), &dset);
+            let mut fs = FileState::new(&g1);
+            for id in g1.files.all_ids() {
+                fs.stat(id, g1.file(id).path()).unwrap();
+            }
+            let h = hash::hash_build(&g1.files, &fs, &g1.builds[BuildId::from(0)]);
+            hashes.set(BuildId::from(0), h);
+        }
+        for s in &specs {
+            set_file(&s.0, s.3, s.4, s.5);
+        }
+        let mut g2 = mk(&[], if renamed { "in2" } else { "in" }, byte(&args[4]), opt(&args[6]), &dset);
+        let mut h0 = Hashes::default();
+        let db = db::open(std::path::Path::new(".n2_db"), &mut g2, &mut h0).unwrap();
+        let progress = NoProgress;
+        let mut options = Options::default();
+        options.parallelism = 1;
+        let mut work = Work::new(g2, hashes, db, &options, &progress, SmallMap::default());
+        let r = work.check_build_dirty(BuildId::from(0));
+        std::env::set_current_dir(&old).unwrap();
+        let _ = std::fs::remove_dir_all(&dir);
+        match r {
+            Ok(b) => format!("Ok({})", b),
+            Err(e) => format!("Err({})", e),
+        }
     }
 }
